@@ -16,6 +16,7 @@
 package main
 
 import (
+	"strconv"
 	"context"
 	"errors"
 	"fmt"
@@ -245,6 +246,35 @@ func newWorld(n int, names []string) *world {
 }
 
 // quiesce: every spawned unification goroutine is gone, the mutex is free and two snapshots agree
+// startReaders: k clients that keep asking for the catalogue (model listings, a model's endpoints) while the history runs;
+// what they read is not judged — what everybody reads once the writers are done is
+func (w *world) startReaders(k int) (stop func()) {
+	var halt atomic.Bool
+	var wg sync.WaitGroup
+	ctx := context.Background()
+	for i := 0; i < k; i++ {
+		wg.Add(1)
+		go func(i int) {
+			defer wg.Done()
+			for n := 0; !halt.Load(); n++ {
+				_, _ = w.reg.GetUnifiedModels(ctx)
+				if n%4 == i%4 && len(w.names) > 0 {
+					_, _ = w.reg.GetEndpointsForModel(ctx, w.names[n%len(w.names)])
+				}
+				if n%64 == 0 {
+					runtime.Gosched()
+				}
+			}
+		}(i)
+	}
+	w.base += k
+	return func() {
+		halt.Store(true)
+		wg.Wait()
+		w.base -= k
+	}
+}
+
 func (w *world) quiesce() obs {
 	deadline := time.Now().Add(5 * time.Second)
 	prev := ""
@@ -412,9 +442,15 @@ func namesOf(ops []op) []string {
 	return vlib.SortedKeys(set)
 }
 
+var histSeq int
+
 func caseHist(c *vlib.Cases, mode string, n int, ops []op) {
 	names := namesOf(ops)
 	w := newWorld(n, names)
+	histSeq++
+	if mode != "forced" && histSeq%3 == 0 {
+		defer w.startReaders(2)()
+	}
 	var steps []step
 	for _, o := range ops {
 		ok := w.apply(o, mode == "forced")
@@ -443,6 +479,7 @@ func caseConc(c *vlib.Cases, n int, rounds [][]op) {
 	}
 	names := namesOf(all)
 	w := newWorld(n, names)
+	defer w.startReaders(3)()
 	var steps []step
 	for _, r := range rounds {
 		var wg sync.WaitGroup
@@ -465,6 +502,77 @@ func caseConc(c *vlib.Cases, n int, rounds [][]op) {
 	c.Emit(map[string]any{"kind": "conc", "n": n, "rounds": rounds, "names": names, "impl": map[string]any{"steps": steps}})
 }
 
+// caseOverlap: clients keep reading the catalogue while one endpoint's listing changes round after round (the other
+// endpoint's never does). After every round, once the unification it started has been processed, the unified listing
+// must show exactly what the endpoints last listed: for every endpoint and every model it lists an entry that names
+// this endpoint as a source, and no source that the endpoint does not list.
+func caseOverlap(c *vlib.Cases, rounds, readers int) {
+	names := []string{"alpha", "beta", "gamma"}
+	w := newWorld(2, names)
+	stop := w.startReaders(readers)
+	ctx := context.Background()
+	mk := func(ns ...string) []*domain.ModelInfo {
+		out := []*domain.ModelInfo{}
+		for _, n := range ns {
+			out = append(out, &domain.ModelInfo{Name: n, Size: 1, LastSeen: time.Now()})
+		}
+		return out
+	}
+	settle := func() {
+		deadline := time.Now().Add(2 * time.Second)
+		for time.Now().Before(deadline) {
+			if runtime.NumGoroutine() <= w.base && w.reg.VerifUnifyIdle() {
+				return
+			}
+			runtime.Gosched()
+		}
+	}
+	_ = w.reg.RegisterModels(ctx, epURL(0), mk("alpha", "beta"))
+	settle()
+	listingsOfB := [][]string{{"beta"}, {"beta", "gamma"}, {"gamma"}, {}}
+	mismatches, first := 0, ""
+	check := func(round int, bNames []string) {
+		want := map[string]bool{"alpha@0": true, "beta@0": true}
+		for _, n := range bNames {
+			want[n+"@1"] = true
+		}
+		us, _ := w.reg.GetUnifiedModels(ctx)
+		got := map[string]bool{}
+		for _, u := range us {
+			for _, src := range u.SourceEndpoints {
+				got[src.NativeName+"@"+strconv.Itoa(urlIdx(src.EndpointURL))] = true
+			}
+		}
+		same := len(got) == len(want)
+		for k := range want {
+			same = same && got[k]
+		}
+		if !same {
+			mismatches++
+			if first == "" {
+				var g, wl []string
+				for k := range got {
+					g = append(g, k)
+				}
+				for k := range want {
+					wl = append(wl, k)
+				}
+				sort.Strings(g)
+				sort.Strings(wl)
+				first = fmt.Sprintf("round %d: endpoint 1 last listed %v; unified listing has sources %v, the listings say %v", round, bNames, g, wl)
+			}
+		}
+	}
+	for r := 0; r < rounds; r++ {
+		b := listingsOfB[r%len(listingsOfB)]
+		_ = w.reg.RegisterModels(ctx, epURL(1), mk(b...))
+		settle()
+		check(r, b)
+	}
+	stop()
+	c.Emit(map[string]any{"kind": "overlap", "rounds": rounds, "readers": readers, "impl": map[string]any{"mismatches": mismatches, "first": first}})
+}
+
 // burst rounds: the operations of a round are issued back to back from one goroutine, without waiting
 // for the unification goroutines they spawn; the snapshot is taken when everything has settled.
 func caseBurst(c *vlib.Cases, n int, rounds [][]op) {
@@ -474,6 +582,7 @@ func caseBurst(c *vlib.Cases, n int, rounds [][]op) {
 	}
 	names := namesOf(all)
 	w := newWorld(n, names)
+	defer w.startReaders(3)()
 	var steps []step
 	for _, r := range rounds {
 		oks := []bool{}
@@ -869,6 +978,14 @@ func main() {
 	caseHist(c, "forced", 1, []op{{Op: "reg", E: 0, Models: []*mdl{M("x")}}, {Op: "remove", E: 0}, {Op: "run", I: 0}})
 	caseHist(c, "forced", 1, []op{{Op: "reg", E: 0, Models: []*mdl{M("x")}}, {Op: "reg", E: 0, Models: []*mdl{M("y")}}, {Op: "run", I: 0}, {Op: "run", I: 0}})
 	for i := 0; i < 6; i++ { // natural scheduling: repeat the two-listing burst a few times
+		// catalogue readers overlapping discovery results, round after round
+		nOverlap := 20000
+		if tier == "thorough" {
+			nOverlap = 200000
+		}
+		caseOverlap(c, nOverlap, 1)
+		caseOverlap(c, nOverlap/2, 3)
+		c.Count("overlap")
 		caseBurst(c, 1, [][]op{{{Op: "reg", E: 0, Models: []*mdl{M("x")}}, {Op: "reg", E: 0, Models: []*mdl{M("y")}}}})
 		caseBurst(c, 1, [][]op{{{Op: "reg", E: 0, Models: []*mdl{M("x")}}, {Op: "remove", E: 0}}})
 		caseBurst(c, 1, [][]op{{{Op: "reg", E: 0, Models: []*mdl{}}, {Op: "reg", E: 0, Models: []*mdl{M("x"), M("y")}}}})
